@@ -100,7 +100,7 @@ def pick_idx(n, limit):
 
 def magnitude(iso):
     m = float(numpy.max(numpy.abs(iso.data_raw[iso.loading_key].to_numpy(dtype=float))))
-    return "<1e-3" if m < 1e-3 else (">1e4" if m > 1e4 else "1e-3..1e4")
+    return "<1e-2" if m < 1e-2 else (">1e4" if m > 1e4 else "1e-2..1e4")
 
 
 def dbg(msg):
